@@ -164,6 +164,10 @@ def has_check_type_in_type(type_: type, check_type: type) -> bool:
     """Return True if a given type is a subclass of check_type or a complex
     type that has a subclass of check_type among it's arguments."""
 
+    if is_new_type(type_):
+        # A NewType is checked as the type it wraps (at any nesting level)
+        return has_check_type_in_type(unwrap_newtype(type_), check_type)
+
     try:
         if issubclass(type_, check_type):
             return True
@@ -195,6 +199,9 @@ def _is_valid_child_field_type(
     caught in the outer function.
     """
 
+    if is_new_type(type_):
+        return _is_valid_child_field_type(unwrap_newtype(type_), node_base_type, allow_sequence)
+
     if not allow_sequence and is_optional(type_):
         # We do not allow optionals within sequences
         # So check this early
@@ -206,7 +213,9 @@ def _is_valid_child_field_type(
         # So easy check
 
         try:
-            if not all(issubclass(t, node_base_type) for t in args if t is not type(None)):
+            if not all(
+                issubclass(unwrap_newtype(t), node_base_type) for t in args if t is not type(None)
+            ):
                 return InvalidTypeReason.NON_NODE_TYPE
         except TypeError:
             return InvalidTypeReason.NON_NODE_TYPE
